@@ -1,4 +1,8 @@
+// ================================================================================================
+// src/taskdb/snapshot.rs
+// ================================================================================================
 pub mod snapshot { pub use super::{make_snapshot, apply_snapshot}; }
+//@props C12
 //@extract src/taskdb/snapshot.rs :: struct SnapshotTasks
 pub struct SnapshotTasks(pub Vec<(Uuid, TaskMap)>);
 //@end
@@ -28,8 +32,16 @@ impl SnapshotTasks {
 }
 //@extract src/taskdb/snapshot.rs :: fn make_snapshot
 pub fn make_snapshot(txn: &mut dyn StorageTxn) -> (r: Result<Vec<u8>>)
+    requires old(txn).inv(),
+    ensures final(txn).inv(), final(txn).st() == old(txn).st(),
+        //@ob C12 make_snapshot.encodes-exactly-the-current-task-set
+        match r {
+            Ok(b) => snap_decodable(b@) && snap_decode(b@) == old(txn).st().tasks,
+            Err(e) => storage_err(e),
+        },
 {
     let all_tasks = SnapshotTasks(txn.all_tasks()?);
+    proof { assert(tasks_listed(all_tasks.0@, txn.st().tasks)); }
     all_tasks.encode()
 }
 //@end
@@ -39,18 +51,69 @@ pub fn apply_snapshot(
     version: VersionId,
     snapshot: &[u8],
 ) -> (r: Result<()>)
+    requires old(txn).inv(), !old(txn).st().committed,
+    ensures final(txn).inv(),
+        //@ob C12 apply_snapshot.never-replaces-existing-data
+        !is_empty_view(old(txn).st()) ==> r is Err && final(txn).st() == old(txn).st(),
+        //@ob C12 apply_snapshot.installs-exactly-the-decoded-task-set-and-its-version
+        r is Ok ==> is_empty_view(old(txn).st())
+            && (snap_decodable(snapshot@) ==> final(txn).st() == (TxnView { tasks: snap_decode(snapshot@), base: version, ..old(txn).st() })),
+        // an error may leave a partly written, uncommitted transaction, which the caller drops
+        r is Err ==> final(txn).st().committed == old(txn).st().committed,
+        r matches Err(e) ==> storage_err(e) || (e is Database),
 {
+    let ghost s0 = txn.st();
     let all_tasks = SnapshotTasks::decode(snapshot)?;
     if !txn.is_empty()? {
         return Err(Error::Database(String::from(
             "Cannot apply snapshot to a non-empty task database",
         )));
     }
+    let ghost lst = all_tasks.0@;
+    proof { assert(s0.tasks =~= Map::<Uuid, TaskMapS>::empty()); }
     for (uuid, task) in it_uuid: drain_all(&mut all_tasks.into_inner())
+        invariant
+            it_uuid.seq() == lst, s0 == old(txn).st(), is_empty_view(s0),
+            txn.inv(), !txn.st().committed,
+            txn.st() == (TxnView { tasks: txn.st().tasks, ..s0 }),
+            forall|t: State| tasks_listed(lst, t) ==> listed_prefix(lst, t, it_uuid.index() as int, txn.st().tasks),
     {
+        let ghost i = it_uuid.index() as int;
+        let ghost t_before = txn.st().tasks;
         txn.set_task(uuid, task)?;
+        proof {
+            assert forall|t: State| tasks_listed(lst, t) implies listed_prefix(lst, t, i + 1, txn.st().tasks) by {
+                assert(listed_prefix(lst, t, i, t_before));
+                assert(lst[i].0 == uuid && lst[i].1@ == task@);
+                assert forall|u: Uuid| #[trigger] txn.st().tasks.dom().contains(u) <==> (exists|j: int| 0 <= j < i + 1 && #[trigger] lst[j].0 == u) by {
+                    if u == uuid { assert(lst[i].0 == u); }
+                    else {
+                        if t_before.dom().contains(u) { let j = choose|j: int| 0 <= j < i && #[trigger] lst[j].0 == u; assert(lst[j].0 == u); }
+                        if exists|j: int| 0 <= j < i + 1 && #[trigger] lst[j].0 == u { let j = choose|j: int| 0 <= j < i + 1 && #[trigger] lst[j].0 == u; assert(j < i); assert(lst[j].0 == u); }
+                    }
+                }
+            }
+        }
+    }
+    proof {
+        if snap_decodable(snapshot@) {
+            let t = snap_decode(snapshot@);
+            assert(listed_prefix(lst, t, lst.len() as int, txn.st().tasks));
+            assert(txn.st().tasks =~= t) by {
+                assert forall|u: Uuid| txn.st().tasks.dom().contains(u) <==> t.dom().contains(u) by {
+                    if t.dom().contains(u) { let j = choose|j: int| 0 <= j < lst.len() && #[trigger] lst[j].0 == u; assert(lst[j].0 == u); }
+                    if txn.st().tasks.dom().contains(u) { let j = choose|j: int| 0 <= j < lst.len() && #[trigger] lst[j].0 == u; assert(t.dom().contains(lst[j].0)); }
+                }
+            }
+        }
     }
     txn.set_base_version(version)?;
     Ok(())
 }
 //@end
+
+/// the first n pairs of a task listing, written one by one into an empty store, give the listed tasks restricted to them
+pub open spec fn listed_prefix(lst: Seq<(Uuid, TaskMap)>, t: State, n: int, cur: State) -> bool {
+    &&& forall|u: Uuid| #[trigger] cur.dom().contains(u) <==> (exists|j: int| 0 <= j < n && #[trigger] lst[j].0 == u)
+    &&& forall|u: Uuid| #[trigger] cur.dom().contains(u) ==> t.dom().contains(u) && cur[u] == t[u]
+}
